@@ -110,6 +110,10 @@ func runC08(p *Prog, r *Report) {
 	if want("C08.8") {
 		ruleReadErrorsSurface(p, r, "C08.8")
 	}
+	if want("C08.15") {
+		// a failed flush wait is a failure of whoever waited: acknowledged writes must not be left behind a recorded sequence number
+		ruleTrSeqAfterFlush(p, r, "C08.15")
+	}
 	if want("C08.14") {
 		// tolerated manifest damage must not lose acknowledged writes (shared with C04.21)
 		ruleSkippedEntryLeavesNoTrace(p, r, "C08.14")
